@@ -101,6 +101,11 @@ class Sym(object):
         iterations of a loop over matching_terms(...) is named by what it counts."""
         if isinstance(a, ast.Name):
             fn = self.func.node
+            d = norm.definitions(fn).get(a.id)
+            if isinstance(d, ast.Call) and norm.call_name(d) == "sum" and len(d.args) == 1 and isinstance(d.args[0], ast.GeneratorExp) \
+                    and isinstance(d.args[0].elt, ast.Constant) and d.args[0].elt.value == 1 and not d.args[0].generators[0].ifs \
+                    and any(norm.call_name(c) == "matching_terms" for c in norm.calls_in(d.args[0].generators[0].iter)) and a.id not in self.func.params:
+                return "<count of matching_terms>"
             binds = [st for st in ast.walk(fn) if (isinstance(st, ast.Assign) and any(isinstance(t, ast.Name) and t.id == a.id for t in st.targets))
                      or (isinstance(st, ast.AugAssign) and isinstance(st.target, ast.Name) and st.target.id == a.id)]
             inits = [st for st in binds if isinstance(st, ast.Assign)]
